@@ -677,6 +677,11 @@ func (e *Env) Term(v ssa.Value) string {
 			}
 			return "ok(" + e.Term(ta.X) + "," + ta.AssertedType.String() + ")"
 		}
+		if call, ok := v.Tuple.(*ssa.Call); ok {
+			if rv, sub := e.inlineResult(call, v.Index); rv != nil {
+				return sub.Term(rv)
+			}
+		}
 		return e.Term(v.Tuple) + "#" + fmt.Sprint(v.Index)
 	case *ssa.Phi:
 		// a φ whose incoming values all denote the same term is that term
@@ -733,11 +738,158 @@ func (e *Env) Term(v ssa.Value) string {
 		if in := InvokeName(v); in != "" && pureInvokes[in] {
 			return in + "(" + e.Term(v.Call.Value) + "," + e.termList(v.Call.Args) + ")"
 		}
+		if v.Call.Signature().Results().Len() == 1 {
+			if rv, sub := e.inlineResult(v, 0); rv != nil {
+				return sub.Term(rv)
+			}
+		}
 		if sc := v.Call.StaticCallee(); sc != nil && e.P.isPureFn(sc) {
 			return FuncName(sc) + "(" + e.termList(v.Call.Args) + ")"
 		}
 	}
 	return e.opaque(v)
+}
+
+// inlineResult makes extracted helpers transparent: when every (successful) return of a module function yields the
+// same expression over its parameters for result i, the call's result IS that expression. It returns the callee's
+// returned value and the callee env to render it in, or nil. Results of error-returning functions are taken from the
+// success returns only, and only when every use of the result lies on the `err == nil` side of a test of that call's
+// error (usedOnlyOnSuccess); big.Int and callee-allocated objects keep their own treatment (bigTerm, origins).
+func (e *Env) inlineResult(call *ssa.Call, i int) (ssa.Value, *Env) {
+	sc := call.Call.StaticCallee()
+	if sc == nil || len(sc.Blocks) == 0 || sc.Pkg == nil || !strings.HasPrefix(sc.Pkg.Pkg.Path(), modPath) || e.depth >= 4 {
+		return nil, nil
+	}
+	for x := e; x != nil; x = x.Parent {
+		if x.Fn == sc {
+			return nil, nil
+		}
+	}
+	res := sc.Signature.Results()
+	if i >= res.Len() || isBigIntPtr(res.At(i).Type()) || res.At(i).Type().String() == "error" {
+		return nil, nil
+	}
+	key := inlineKey{e.ctx, call, i}
+	if r, ok := inlineCache[key]; ok {
+		return r.v, r.e
+	}
+	inlineCache[key] = inlineRes{} // in progress: opaque
+	sel := func(r *ssa.Return) bool { return true }
+	if lastIsError(sc) {
+		if !usedOnlyOnSuccess(call) {
+			return nil, nil
+		}
+		sel = isSuccessReturn
+	}
+	sub := e.Sub(call, sc)
+	var first ssa.Value
+	t := ""
+	n := 0
+	for _, r := range returnsOf(sc) {
+		if !sel(r) || i >= len(r.Results) {
+			continue
+		}
+		rv := retval(r, i)
+		s := sub.Term(rv)
+		if n > 0 && s != t {
+			return nil, nil
+		}
+		first, t = rv, s
+		n++
+	}
+	if n == 0 || strings.Contains(t, "@"+sub.ctx) {
+		return nil, nil
+	}
+	inlineCache[key] = inlineRes{first, sub}
+	return first, sub
+}
+
+type inlineKey struct {
+	ctx  string
+	call *ssa.Call
+	i    int
+}
+type inlineRes struct {
+	v ssa.Value
+	e *Env
+}
+
+var inlineCache = map[inlineKey]inlineRes{}
+
+// usedOnlyOnSuccess: every use of a non-error result of the call is dominated by the `err == nil` edge of a test of
+// the call's own error result.
+func usedOnlyOnSuccess(call *ssa.Call) bool {
+	n := call.Call.Signature().Results().Len()
+	var errX *ssa.Extract
+	var others []*ssa.Extract
+	if call.Referrers() == nil {
+		return false
+	}
+	for _, r := range *call.Referrers() {
+		if x, ok := r.(*ssa.Extract); ok {
+			if x.Index == n-1 {
+				errX = x
+			} else {
+				others = append(others, x)
+			}
+		}
+	}
+	if errX == nil || errX.Referrers() == nil {
+		return false
+	}
+	var okBlocks []*ssa.BasicBlock
+	for _, r := range *errX.Referrers() {
+		bo, ok := r.(*ssa.BinOp)
+		if !ok || !(bo.Op == token.NEQ || bo.Op == token.EQL) || !isNilConst(bo.Y) || bo.Referrers() == nil {
+			continue
+		}
+		for _, u := range *bo.Referrers() {
+			iff, ok := u.(*ssa.If)
+			if !ok || len(iff.Block().Succs) != 2 {
+				continue
+			}
+			t := iff.Block().Succs[1]
+			if bo.Op == token.EQL {
+				t = iff.Block().Succs[0]
+			}
+			if len(t.Preds) == 1 {
+				okBlocks = append(okBlocks, t)
+			}
+		}
+	}
+	if len(okBlocks) == 0 {
+		return false
+	}
+	dominated := func(b *ssa.BasicBlock) bool {
+		for _, k := range okBlocks {
+			if k.Dominates(b) {
+				return true
+			}
+		}
+		return false
+	}
+	for _, x := range others {
+		if x.Referrers() == nil {
+			continue
+		}
+		for _, u := range *x.Referrers() {
+			if _, ok := u.(*ssa.DebugRef); ok {
+				continue
+			}
+			if ph, ok := u.(*ssa.Phi); ok {
+				for k, ed := range ph.Edges {
+					if ed == ssa.Value(x) && !dominated(ph.Block().Preds[k]) {
+						return false
+					}
+				}
+				continue
+			}
+			if !dominated(u.Block()) {
+				return false
+			}
+		}
+	}
+	return true
 }
 
 func (e *Env) termNoCycle(v ssa.Value, phi *ssa.Phi) string {
@@ -941,6 +1093,17 @@ func (e *Env) LE(v ssa.Value) LE {
 	case *ssa.Call:
 		if b, ok := v.Call.Value.(*ssa.Builtin); ok && b.Name() == "len" {
 			return e.lenOf(v.Call.Args[0])
+		}
+		if v.Call.Signature().Results().Len() == 1 && isInteger(v.Type()) {
+			if rv, sub := e.inlineResult(v, 0); rv != nil {
+				return sub.LE(rv)
+			}
+		}
+	case *ssa.Extract:
+		if call, ok := v.Tuple.(*ssa.Call); ok && isInteger(v.Type()) {
+			if rv, sub := e.inlineResult(call, v.Index); rv != nil {
+				return sub.LE(rv)
+			}
 		}
 	case *ssa.UnOp:
 		if v.Op == token.MUL {
@@ -1277,6 +1440,16 @@ func (e *Env) decode0(c ssa.Value, truth bool, why string) []Fact {
 			}
 		}
 		if isInteger(b.X.Type()) && isInteger(b.Y.Type()) {
+			// bytes.Compare(a, b) ==/!= 0 is bytes.Equal(a, b)
+			if op == token.EQL || op == token.NEQ {
+				for _, pr := range [][2]ssa.Value{{b.X, b.Y}, {b.Y, b.X}} {
+					if cl, ok := pr[0].(*ssa.Call); ok && CalleeName(cl) == "bytes.Compare" {
+						if k, ok := constInt(pr[1]); ok && k == 0 {
+							return []Fact{lit(eqAtom(e.Term(cl.Call.Args[0]), e.Term(cl.Call.Args[1])), op == token.EQL, why)}
+						}
+					}
+				}
+			}
 			x, y := e.LE(b.X), e.LE(b.Y)
 			var big []string
 			for _, side := range []ssa.Value{b.X, b.Y} {
@@ -1324,13 +1497,7 @@ func (e *Env) decode0(c ssa.Value, truth bool, why string) []Fact {
 			// boolean module function: add what its `return <truth>` paths guarantee (e.g. mustVerifyPayable)
 			out := []Fact{{Atom: "call:" + FuncName(sc) + "(" + e.termList(args) + ")", Pos: truth, Why: why, Call: b, Env: e}}
 			sub := e.Sub(b, sc)
-			out = append(out, sub.returnFacts(func(r *ssa.Return) bool {
-				if len(r.Results) != 1 {
-					return false
-				}
-				k, ok := boolConst(retval(r, 0))
-				return !ok || k == truth // non-constant returns must be covered too
-			}, why+" via "+sc.Name())...)
+			out = append(out, sub.boolReturnFacts(truth, why+" via "+sc.Name())...)
 			return out
 		}
 		if in := InvokeName(b); in != "" {
@@ -1591,6 +1758,66 @@ func (e *Env) EdgeFacts() map[edge][]Fact {
 	return e.ef
 }
 
+// boolReturnFacts: what every way of returning `truth` from the boolean function guarantees: the facts at the return
+// block plus, for a non-constant returned expression, what that expression being `truth` means.
+func (e *Env) boolReturnFacts(truth bool, why string) []Fact {
+	var sets []map[string]Fact
+	for _, r := range returnsOf(e.Fn) {
+		if len(r.Results) != 1 {
+			return nil
+		}
+		rv := retval(r, 0)
+		k, isConst := boolConst(rv)
+		if isConst && k != truth {
+			continue
+		}
+		m := map[string]Fact{}
+		for _, f := range e.factsAtBlock(r.Block(), nil) {
+			m[f.Key()] = f
+		}
+		if !isConst {
+			for _, f := range e.decode(rv, truth, why) {
+				if f.Lin && f.LE.isConst() && f.LE.k < 0 {
+					m = nil // this return cannot yield `truth`
+					break
+				}
+				m[f.Key()] = f
+			}
+			if m == nil {
+				continue
+			}
+		}
+		sets = append(sets, m)
+	}
+	if len(sets) == 0 {
+		return nil
+	}
+	var keys []string
+	for k := range sets[0] {
+		keys = append(keys, k)
+	}
+	sort.Strings(keys)
+	var out []Fact
+	for _, k := range keys {
+		all := true
+		for _, s := range sets[1:] {
+			if _, ok := s[k]; !ok {
+				all = false
+				break
+			}
+		}
+		if all {
+			f := sets[0][k]
+			if !strings.HasPrefix(f.Why, why) {
+				f.Why = why + " <= " + f.Why
+			}
+			f.defs = nil
+			out = append(out, f)
+		}
+	}
+	return out
+}
+
 // returnFacts: facts (over the caller's terms for parameters) that hold at every return selected by sel.
 func (e *Env) returnFacts(sel func(*ssa.Return) bool, why string) []Fact {
 	return e.returnFactsA(sel, why, nil)
@@ -1708,8 +1935,11 @@ func (sub *Env) rewriteResults(call *ssa.Call, fs []Fact) []Fact {
 			}
 		}
 		k := g.Key()
-		if strings.Contains(k, internal) || strings.Contains(k, "ret#") {
+		if strings.Contains(k, "ret#") {
 			continue
+		}
+		if strings.Contains(k, internal) && (g.Lin || g.Call == nil) {
+			continue // callee-internal values mean nothing to the caller; literals about a call keep their call and env
 		}
 		out = append(out, g)
 	}
